@@ -24,7 +24,7 @@ package resolver
 //@     decreases len(addrs) - rangeindex
 
 //@ func (*resolver).address
-//@   property C18
+//@   property C18 C16
 //@   requires [non-nil] r != nil
 //@   requires [at-least-one-address] len(r.addrs) >= 1
 //@   assume   [history-length] r.idx < MaxUint64
